@@ -98,7 +98,7 @@ inductive Sub : Call → Call → Prop where
   | forall_str (f m s proc r o l rest) : s.vm.stack = proc :: .str r o l :: rest →
       Sub (.call (f + 1) m s "forall") (.fStr f m (setStack s rest) r o 0 l proc)
   | forall_dict (f m s proc d rest) : s.vm.stack = proc :: .dict d :: rest →
-      Sub (.call (f + 1) m s "forall") (.fDict f m (setStack s rest) d ((s.vm.getDict d).map (·.1)) proc)
+      Sub (.call (f + 1) m s "forall") (.fDict f m (setStack s rest) d (sortNames ((s.vm.getDict d).map (·.1))) proc)
   | forL_one (f m s v i l p) : Sub (.forL (f + 1) m s v i l p) (.one f m (pushS s (.int v)) p true)
   | forL_next (f m s v i l p s1) : execOne f m (pushS s (.int v)) p true = (s1, .ok) →
       Sub (.forL (f + 1) m s v i l p) (.forL f m s1 (wrap64 (v + i)) i l p)
